@@ -98,7 +98,7 @@ def check(rec, kind, idx, rng, tier):
     rec.ok('stays_dask')
     with dask.config.set(**skw):
         got = rec.call(lambda: out.data.compute())
-    if idx == 0:
+    if len(rec.samples) < 1:
         rec.sample(pay)
     if hasattr(got, 'exc'):
         if halo_too_big and got.type == 'ValueError' and 'depth' in got.msg:
